@@ -5,7 +5,9 @@ EXTENDS HasSem
 
 (* The grid.                                                            *)
 DocVals == << MISSING, Null, B(TRUE), B(FALSE), N(-1), N(0), N(1), N(2), S("1"), S("a"), S(""),
-              L(<<>>), L(<<N(1)>>), L(<<N(1), S("a")>>), L(<<Null>>), M([k |-> N(1)]) >>
+              L(<<>>), L(<<N(1)>>), L(<<N(1), S("a")>>), L(<<Null>>), M([k |-> N(1)]),
+              \* lists whose members are themselves containers (membership is deep equality)
+              L(<<L(<<N(1)>>), N(2)>>), L(<<M([k |-> N(1)]), S("a")>>) >>
 DocIds == DOMAIN DocVals
 
 Args == { Null, B(TRUE), B(FALSE), N(-1), N(0), N(1), N(2), S("1"), S("a"), S(""),
